@@ -522,6 +522,8 @@ def awkward_programs():
         'nocopy_out': {'steps': [step(['cont', [], {}], yields=1, fx=[(0, ['out', 'o1', '@NOCOPY'])]), step(['value', 3], yields=1, fx=[(0, ['out', 'ns.o2', '@NOCOPY'])])]},
         'killbare': {'steps': [step(['cont', [], {}], yields=1), step(['kill', None], yields=1)]},
         'killbare_sync': {'steps': [step(['kill', None], sync=True)]},
+        # a failure whose message is the empty string
+        'raise_empty': {'steps': [step(['cont', [], {}], yields=1), step(['raise', ''], yields=1)]},
     }
 
 
